@@ -59,6 +59,10 @@ def run(ctx: Ctx, env):
     check_node_construction(ctx, env, "R8.nodes-built-as-written", "the tree no longer has the shape the grammar's actions give it "
                             "(e.g. `not not a` parsed as `a`)")
 
+    # an operator token that a look-behind keeps from matching where the grammar expects it changes the tree (or refuses the filter)
+    from .c06 import check_token_left_context
+    check_token_left_context(ctx, env, "R8.operator-token-not-excluded-by-left-context")
+
     # --- R1: grammar sanity -------------------------------------------------------------------
     from ..lr import Grammar
     undefined = Grammar(g).undefined_symbols()
